@@ -44,6 +44,18 @@ func Script(name string, nmax int) []Op {
 		for i := 0; i < nmax; i++ {
 			ops = append(ops, Op{K: "mset", Key: i, V: cls[i%len(cls)]})
 		}
+	case "arr-kids-compact": // same-typed composite (compact-encoded) maps, of two types, spread over every data slab of a multi-level array
+		ops = append(ops, Op{K: "newarr"})
+		cls := []string{"Mc:t,u5", "limA", "Mc:u5,t", "Mc9:t", "t", "Mc9:t", "mid", "A:t", "Mc:t,u5,s10"}
+		for i := 0; i < nmax; i++ {
+			ops = append(ops, Op{K: "insert", I: uint64(i / 2), V: cls[i%len(cls)]})
+		}
+	case "map-kids-compact": // the same as map values, controlled digests
+		ops = append(ops, Op{K: "newmap"})
+		cls := []string{"Mc:t,u5", "limM", "Mc:u5,t", "Mc9:t", "t", "Mc9:t", "mid", "A:t", "Mc:t,u5,s10"}
+		for i := 0; i < nmax; i++ {
+			ops = append(ops, Op{K: "mset", Key: i, V: cls[i%len(cls)]})
+		}
 	case "arr-drain-front": // grow to nmax/2 with limA, then remove from the front
 		ops = append(ops, Op{K: "newarr"})
 		h := nmax / 2
@@ -249,7 +261,7 @@ func (t *trajSpace) Build(path []Op) (*World, error) {
 		w.CommittedConts = cloneConts(w.Conts)
 		w.CommittedLedger = w.Ledger.Snapshot()
 	}
-	if t.spec.Has("twin") {
+	if t.spec.Has("twin") || t.spec.Has("faults") {
 		w.KeyStorage = true
 		w.TwinBase = func() (*World, error) { return t.Build(nil) }
 	}
